@@ -124,6 +124,35 @@ def check_net(ctx, case):
         ctx.fail('closure-species-missing', '[%s] %d of %d closure species missing, e.g. graphs with %s atoms' % (label, len(missing), len(want), [closure[k].number_of_nodes() for k in missing[:4]]))
 
 
+    # the other documented input forms give the same network: seeds as Mol objects (or one bare string), rules as their text;
+    # and the same rule OBJECTS used for a second network right afterwards
+    if cnt and not dups and not extra and not missing:
+        variants = []
+        counter[0] = 0
+        variants.append(('same rule objects again', list(seeds), rules))
+        variants.append(('Mol-object seeds', [Chem.MolFromSmiles(s) for s in seeds], rules))
+        texts = [POOL[i][2] if f == 'smarts' else POOL[i][3] for i, f in zip(idx, forms)]
+        variants.append(('rules as text', list(seeds), list(texts)))
+        if len(seeds) == 1:
+            variants.append(('bare string seed, single rule not in a list' if len(texts) == 1 else 'bare string seed', seeds[0], texts[0] if len(texts) == 1 else list(texts)))
+        for name, sd, rl in variants:
+            counter[0] = 0
+            try:
+                got2 = GenerateRxnNet(sd, rl)
+            except StepCap:
+                ctx.fail('does-not-terminate:%s' % name, '[%s; %s] more than %d rule applications' % (label, name, counter[1]))
+                continue
+            except Exception as e:
+                ctx.fail('generation-raises:%s:%s' % (type(e).__name__, name), '[%s; %s] raised %s: %s' % (label, name, type(e).__name__, str(e)[:200]))
+                continue
+            ctx.count()
+            ctx.event('input-form:%s' % name.split(',')[0])
+            k2 = collections.Counter(species_of(m) for m in got2)
+            if k2 != cnt:
+                ctx.fail('network-depends-on-input-form:%s' % name.split(',')[0], '[%s] %s: %d species (%d distinct) instead of %d; only here: %s, only before: %s'
+                         % (label, name, sum(k2.values()), len(k2), len(cnt), [k for k in k2 if k not in cnt][:3], [smi[k] for k in cnt if k not in k2][:3]))
+
+
 def enum_fixed(tier):
     # the docstring example and each rule alone in both spellings
     yield dict(kind='net', seeds=['CC'], rules=[0, 2], forms=['smarts', 'smarts'])
